@@ -58,7 +58,7 @@ def build():
                     assert(subject_entries(pairs__@.take(k + 1)) =~= subject_entries(pairs__@.take(k)).push((nid_of(pairs__@[k].0), pairs__@[k].1@)));
                 }"""),
             ("before_stmt", "let name = snb.build()", 1, "proof { assert(pairs__@.take(pairs__@.len() as int) =~= pairs__@); }"),
-            ("before", "domains.iter()", 1, "it2:"), ("before", "ips.iter()", 1, "it3:"),
+            ("loop_iter", None, 2, "it2:"), ("loop_iter", None, 3, "it3:"),
             ("before_stmt", "for dns in", 1, "proof { assert(strs(domains@.take(0)) =~= Seq::<Seq<char>>::empty()); }"),
             ("loop_end", None, 2, "proof { let k = it2.index@; assert(domains@.take(k + 1) =~= domains@.take(k).push(domains@[k])); assert(strs(domains@.take(k + 1)) =~= strs(domains@.take(k)).push(domains@[k]@)); }"),
             ("before_stmt", "for ip in", 1, "proof { assert(domains@.take(domains@.len() as int) =~= domains@); assert(strs(ips@.take(0)) =~= Seq::<Seq<char>>::empty()); }"),
